@@ -15,7 +15,7 @@ use hx_common::Rng;
 use std::panic::{catch_unwind, AssertUnwindSafe};
 
 mod samesig;
-use samesig::{entry, Entry, TestDatabase, ENTRIES, FAMILIES};
+use samesig::{entries, entry, Entry, TestDatabase, ENTRIES, FAMILIES};
 
 pub struct Site {
     pub krate: &'static str,
@@ -114,7 +114,7 @@ fn gen(r: &mut Rng, _i: u64) -> Vec<String> {
     let roll = r.below(100);
     if roll < 3 {
         // malformed stream
-        let e = r.pick(ENTRIES);
+        let e = r.pick(entries());
         let line = match r.below(4) {
             0 => format!("samesig.hist\thx_memo::samesig::nowhere::f/1/-"),
             1 => format!("samesig.hist\t{}/{}/x", e.qid, e.base),
@@ -136,9 +136,9 @@ fn gen(r: &mut Rng, _i: u64) -> Vec<String> {
     }
     let (pool, len, maxarg): (Vec<&Entry>, usize, usize) = if r.chance(3, 5) {
         let fam = r.below(FAMILIES);
-        (ENTRIES.iter().filter(|e| e.family == fam).collect(), r.range(2, 8), 1)
+        (entries().iter().filter(|e| e.family == fam).collect(), r.range(2, 8), 1)
     } else {
-        (ENTRIES.iter().collect(), r.range(2, 12), 1)
+        (entries().iter().collect(), r.range(2, 12), 1)
     };
     let mut calls: Vec<String> = vec![];
     for _ in 0..len {
@@ -179,6 +179,9 @@ fn run(f: &[&str]) -> String {
             }
         }
         ["samesig.key", qid, base, args, key] => {
+            if qid.starts_with('~') {
+                return "bad-request".to_string(); // no predicted key for a site T4 cannot place
+            }
             let Some((e, a)) = parse_call(&format!("{}/{}/{}", qid, base, args)) else { return "bad-request".to_string() };
             if !key.bytes().all(|b| b.is_ascii_digit()) {
                 return "bad-request".to_string();
